@@ -327,6 +327,18 @@ def build_model_runner(timeout=900):
         stamp = os.path.join(d, "stamp")
         if os.path.exists(MODEL_RUNNER) and os.path.exists(stamp) and open(stamp).read() == h.hexdigest():
             return True, "cached"
+        # the .vo files Extract.v requires must be current
+        deps = []
+        esrc = strip_comments(open(os.path.join(COQ, "extract", "Extract.v")).read())
+        for m in re.finditer(r"From\s+(Ucg|UcgGen)\s+Require\s+Import\s+(.*?)\.\s*(?:\n|$)", esrc, re.S):
+            for mod in m.group(2).split():
+                if m.group(1) == "Ucg":
+                    deps.append("theories/" + mod.replace(".", "/") + ".vo")
+                else:
+                    deps.append("gen/" + mod + ".vo")
+        okd, logd = coq_make(deps, timeout=timeout)
+        if not okd:
+            return False, logd
         rc, out, err = sh(["coqc", "-noglob", "-Q", os.path.join(COQ, "theories"), "Ucg", "-Q", GEN, "UcgGen",
                            os.path.join(COQ, "extract", "Extract.v")], cwd=d, timeout=timeout)
         if rc != 0:
@@ -439,3 +451,27 @@ def prove(check, module_vo, prop_module, theorems, allowed=()):
 def failed_file(logtxt):
     m = re.findall(r'File "([^"]+)", line (\d+)', logtxt)
     return m[-1] if m else None
+
+
+# --------------------------------------------------------------------------
+# running the ucg binary on many scratch projects
+
+def scratch_root():
+    d = os.path.join(CACHE, "scratch")
+    os.makedirs(d, exist_ok=True)
+    return d
+
+
+def run_many(jobs, workers=None):
+    """jobs: list of (argv, cwd, env_or_None). Returns list of (rc, stdout, stderr) in order."""
+    from concurrent.futures import ThreadPoolExecutor
+
+    def one(job):
+        argv, cwd, env = job
+        try:
+            p = subprocess.run(argv, cwd=cwd, env=env if env is not None else ENV, capture_output=True, timeout=60)
+            return p.returncode, p.stdout.decode("utf-8", "replace"), p.stderr.decode("utf-8", "replace")
+        except subprocess.TimeoutExpired:
+            return 124, "", "TIMEOUT"
+    with ThreadPoolExecutor(max_workers=workers or NPROC) as ex:
+        return list(ex.map(one, jobs))
